@@ -28,7 +28,7 @@ func (fv *Fvar) parseFvarRecords(src []byte) (err error) {
 	if L := len(src); L < int(fv.axesArrayOffset) {
 		return fmt.Errorf("EOF: expected length: %d, got %d", fv.axesArrayOffset, L)
 	}
-	fv.FvarRecords, _, err = ParseFvarRecords(src[fv.axesArrayOffset:], int(fv.axisCount), int(fv.instanceCount), int(fv.axisCount))
+	fv.FvarRecords, _, err = ParseFvarRecords(src[fv.axesArrayOffset:], int(fv.axisCount), int(fv.instanceCount), int(fv.instanceSize))
 	return
 }
 
